@@ -244,6 +244,12 @@ class Normalizer:
                 if f[2] in TRANSPARENT_METHODS:
                     return self.norm(f[1])
                 args = [f[1]] + args
+            if name in ("asarray", "asanyarray") and f[0] == "global" and len(args) == 1 and not kws:
+                return self.norm(args[0])  # container change only
+            if name == "ppf" and any(kk == "q" for kk, _ in kws):  # ppf(q=x) == ppf(x)
+                qv = [v for kk, v in kws if kk == "q"][0]
+                kws = [(kk, v) for kk, v in kws if kk != "q"]
+                args = args[:1] + [qv] + args[1:] if f[0] == "attr" else [qv] + args
             if name == "power" and len(args) == 2:
                 return self.norm(("bin", "**", args[0], args[1]))
             if name == "sqrt" and len(args) == 1:
